@@ -138,3 +138,10 @@ chk('C20', 'model_checking',
     'Independence of VPSC results from ids/order is decided in C02 (permuted and reversed copies against one oracle optimum).',
     'Same process only. Option nudgeOrthogonalSegmentsConnectedToShapes (F13) switched off. Fixed-relative constraints left out of the layout repeats (F31).',
     'TLA+ record specification with bit-exact limb comparison and exact lattice translation', '4/C20')
+
+chk('C13', 'model_checking',
+    'Topology.tla judges every state recorded after every TopologyConstraints::solve() of axis-alternating layout steps (the sequence ColaTopologyAddon::moveTo performs): nodes do not overlap, no segment '
+    'meets the interior of a node other than its end nodes (separating-axis test on the 1/16 lattice), paths keep their end nodes, every bend sits on a corner of its node; and for every single-axis step the '
+    'number of crossings of each edge with each node\'s centre line on either side of the centre is unchanged -- which is exactly what pulling an edge through a node would flip.',
+    'Straight initial edges that clear all other nodes; one node dragged with weight 10000; 4..9 nodes. Motion inside one solve() is not observed.',
+    'TLA+ state invariants + single-axis step property; record validation of solver steps', '4/C13')
